@@ -5,12 +5,12 @@ from cvxopt.modeling import variable, op
 x = variable(2, 'x')
 A = matrix([[1., 0.], [1., 0.]])        # second row is zero
 lp = op(x[0], [A*x <= 1, x >= 0])
-lp.tofile('/tmp/wt5h/C14/hunt/tmp/r5a.mps')
-lp2 = op(); lp2.fromfile('/tmp/wt5h/C14/hunt/tmp/r5a.mps')
+lp.tofile('/var/tmp/fz/r5a.mps')
+lp2 = op(); lp2.fromfile('/var/tmp/fz/r5a.mps')
 print(lp, '->', lp2)
 lp = op(x[0], [A*x <= -1, x >= 0])      # 0 <= -1 : an infeasible LP
-lp.tofile('/tmp/wt5h/C14/hunt/tmp/r5b.mps')
+lp.tofile('/var/tmp/fz/r5b.mps')
 try:
-    lp2 = op(); lp2.fromfile('/tmp/wt5h/C14/hunt/tmp/r5b.mps'); print(lp2)
+    lp2 = op(); lp2.fromfile('/var/tmp/fz/r5b.mps'); print(lp2)
 except Exception as e: print('fromfile raised', type(e).__name__, e)
 lp.solve(); print('original status:', lp.status)
